@@ -7,14 +7,19 @@
     any number of threads, any client programs, any buffer capacity (incl. 1: the constructor allocates at least two
     cells since commit be2e716), counting or non-counting buffer, any spin / recursion fuel.
     general_instant disposes in the caller (Properties_C04.v: every "dispose p" follows a "retire p" of the same
-    thread and one synchronize).  general_threaded and signal_buffered have no Coq theorem: exploration of the
-    real code with real threads and a per-object dispose counter (checks/C05.py), labelled as such in the evidence.
+    thread and one synchronize).  signal_buffered (LV.Model.RcuSignal) and general_threaded (LV.Model.RcuThreaded, with
+    its reclamation thread as thread n of the model and the destructor as thread n+1): theorems C05_shb_* / C05_gpt_*
+    below.  These two flavours cannot run under the deterministic scheduler; their models are tied to the code by
+    reading and by the real-thread exploration of checks/C05.py (per-object dispose counter), not by a step
+    correspondence; the modelling assumptions (atomic signal delivery, atomic mutex/condvar hand-offs, join as a
+    counter) are stated at the top of the model files.
 
     [nret p tr] / [ndisp p tr] = number of "retire p" / "dispose p" events in the trace; [cz p l] = occurrences of p
     in l; a thread emits "done" when it has completed its program; [full_trace n c] = the trace of the run followed
     by the disposals of Destruct (clear_buffer( max ), in FIFO order).  *)
 From Coq Require Import ZArith List String.
-From LV Require Import Base.Conc Base.Events Model.RcuGp Model.RcuBuf Proofs.RcuGpInv Proofs.RcuBufInv Proofs.RcuBufSafe.
+From LV Require Import Base.Conc Base.Events Model.RcuGp Model.RcuBuf Model.RcuSignal Model.RcuThreaded Proofs.RcuGpInv Proofs.RcuBufInv
+  Proofs.RcuBufSafe Proofs.RcuSignalProofs Proofs.RcuThrInv Proofs.RcuThrSafe.
 Import ListNotations.
 Local Open Scope string_scope.
 
@@ -48,6 +53,41 @@ Theorem C05_rcu_destruct_drains :
 Proof. exact rcu_destruct_drains_all. Qed.
 Print Assumptions C05_rcu_destruct_drains.
 
+(** signal_buffered *)
+Theorem C05_shb_dispose_at_most_once :
+  forall sfuel rf kfuel cap cnt (ths : list (list RcuBuf.bop)) c,
+    Conc.reach (RcuSignal.sinit_cfg sfuel rf kfuel cap cnt ths) c ->
+    forall p, ndisp p (Conc.trace c) <= nret p (Conc.trace c).
+Proof. exact shb_dispose_at_most_once_all. Qed.
+Print Assumptions C05_shb_dispose_at_most_once.
+
+Theorem C05_shb_destruct_drains :
+  forall sfuel rf kfuel cap cnt (ths : list (list RcuBuf.bop)) c,
+    Conc.reach (RcuSignal.sinit_cfg sfuel rf kfuel cap cnt ths) c -> all_done (List.length ths) (Conc.trace c) ->
+    forall n p, ndisp p (full_trace n c) = nret p (full_trace n c).
+Proof. exact shb_destruct_drains_all. Qed.
+Print Assumptions C05_shb_destruct_drains.
+
+(** general_threaded: at every instant an object has been disposed (by a caller on the overflow path or by the
+    reclamation thread) at most as often as it was retired *)
+Theorem C05_gpt_dispose_at_most_once :
+  forall sfuel rounds cap cnt (ths : list (list RcuBuf.bop)) c,
+    Conc.reach (RcuThreaded.tinit_cfg sfuel rounds cap cnt ths) c ->
+    forall p, ndisp p (Conc.trace c) <= nret p (Conc.trace c).
+Proof. exact gpt_dispose_at_most_once_all. Qed.
+Print Assumptions C05_gpt_dispose_at_most_once.
+
+(** general_threaded, Destruct: the destructor joins the clients and posts the stop task; when the reclamation thread
+    has drained the buffer and left its loop ("ddone") every object has been disposed exactly as often as it was
+    retired *)
+Theorem C05_gpt_destruct_drains :
+  forall sfuel rounds cap cnt (ths : list (list RcuBuf.bop)) c,
+    Conc.reach (RcuThreaded.tinit_cfg sfuel rounds cap cnt ths) c ->
+    (exists i t, at_ (Conc.trace c) i t is_ddone) ->
+    forall p, ndisp p (Conc.trace c) = nret p (Conc.trace c).
+Proof. exact gpt_destruct_drains_all. Qed.
+Print Assumptions C05_gpt_destruct_drains.
+
 (** non-vacuity: capacity 1 (two cells), 5 objects retired by one thread (one of them through the overflow path,
     two by batch_retire), a reader inside a section; all threads complete, every object is disposed exactly once *)
 Example C05_nonvacuous :
@@ -57,3 +97,12 @@ Example C05_nonvacuous :
   map (fun p => ndisp p (fst r)) [1; 2; 3; 4; 5]%Z = [1; 1; 1; 1; 1]%nat /\
   List.length (filter (fun e => match e with EvAcc KCas [8; 0]%Z false => true | _ => false end) (map snd (fst r))) = 1%nat.
 Proof. vm_compute. repeat split; reflexivity. Qed.
+
+(** general_threaded: two clients, capacity 2; five objects retired, the reclamation thread and the overflow path dispose
+    them, the destructor stops the thread: "ddone" is reached and every object has been disposed exactly once *)
+Example C05_gpt_nonvacuous :
+  let r := RcuThreaded.run_case [300; 2; 0; 20]%Z [[[1]; [3]; [9]; [4]]; [[1]; [6; 1]; [6; 2]; [6; 3]; [10; 4; 5]; [5]]]%Z [] 6000 in
+  snd r = true /\ List.length (filter (is_cli "ddone") (map snd (fst r))) = 1%nat /\
+  map (fun p => ndisp p (fst r)) [1; 2; 3; 4; 5]%Z = [1; 1; 1; 1; 1]%nat /\
+  List.length (filter (fun x => andb (Nat.eqb (fst x) 2) (is_cli "dispose" (snd x))) (fst r)) >= 1.
+Proof. vm_compute. repeat split; try reflexivity. repeat constructor. Qed.
